@@ -14,6 +14,7 @@
 -/
 import Desync.Proofs.ChunkerProofs
 import Desync.Proofs.ParChunkInst
+import Desync.Proofs.ChunkStreamProofs
 
 namespace Desync.C02
 open Desync
@@ -193,7 +194,64 @@ theorem gen_par_sites :
     Gen.site_par_start_found = true ∧ Gen.site_par_mChunks_found = true ∧ Gen.site_shape_par_start_found = true ∧
     Gen.parStartShape = Par.modelledStartShape := by decide
 
+/-! ### the stream chunker's worker pool (`ChunkStream`, index.go: `make` of a stream, `tar -i`)
+
+  `CStream.step` (`Model/ChunkStream.lean`): the feeder numbers the chunks the chunker yields and
+  hands them to N workers; a worker records the index row under the job's number in the shared
+  `results` map, then stores the chunk; after `g.Wait()` the index is `chunks[i] = results[i]`.
+  Every channel operation, `recordResult` call and store call is a step; steps of different
+  goroutines interleave arbitrarily; store outcomes, chunker errors and cancellation are events. -/
+
+/-- **stream index = single-stream result, for every worker count and every interleaving**: a
+    successful `ChunkStream` returns one row per chunk of the chunker's output, in order, with
+    `Start` = the chunk's offset, `Size` = its length and `ID` = the digest of its bytes -/
+theorem chunkstream_index_exact (H : Bytes → Bytes) (jobs : List (Nat × Bytes)) (n : Nat) (s : CStream.St)
+    (h : CStream.Reachable H (CStream.St.init jobs n) s) (rows : List CStream.Row)
+    (hr : s.result = some (.ok rows)) : rows = CStream.expected H jobs :=
+  CStream.index_exact H jobs n s h rows hr
+
+/-- … instantiated with the chunker model: the rows are those of `chunkAll p data` -/
+theorem chunkstream_index_is_chunkAll (H : Bytes → Bytes) (p : ChunkParams) (data : Bytes) (n : Nat) (s : CStream.St)
+    (h : CStream.Reachable H
+      (CStream.St.init ((chunkAll p data).map fun c => (c.1, (data.drop c.1).take c.2)) n) s)
+    (rows : List CStream.Row) (hr : s.result = some (.ok rows)) :
+    rows = (chunkAll p data).map fun c =>
+      ⟨c.1, ((data.drop c.1).take c.2).length, H ((data.drop c.1).take c.2)⟩ := by
+  rw [CStream.index_exact H _ n s h rows hr]
+  simp [CStream.expected, CStream.rowOf, List.map_map, Function.comp_def]
+
+/-- the pool cannot get stuck -/
+theorem chunkstream_never_stuck (H : Bytes → Bytes) (jobs : List (Nat × Bytes)) (n : Nat) (hn : 1 ≤ n) (s : CStream.St)
+    (h : CStream.Reachable H (CStream.St.init jobs n) s) (hr : s.result = none) :
+    ∃ e s', CStream.step H s e = some s' :=
+  CStream.no_deadlock H jobs n hn s h hr
+
+/-- **regenerated obligation**: index.go's `ChunkStream` still records, stores, numbers and assembles
+    what the machine says: the worker calls `recordResult(c.num, IndexChunk{Start: c.start,
+    Size: uint64(len(c.b)), ID: NewChunk(c.b).ID()})` exactly once per job and nothing skips an
+    iteration; `recordResult` assigns `results[key] = row`; the worker stores `NewChunk(c.b)` and
+    returns that call's error; the feeder sends `chunkJob{num, start, b}` of `c.Next()`, `num`
+    starts at 0 and is incremented after the send; the index is `chunks[i] = results[i]` for
+    `i < len(results)` -/
+theorem gen_chunkstream_shape :
+    Gen.site_chunkstream_found = true ∧
+    Gen.chunkStreamRecordKey = "c.num" ∧
+    Gen.chunkStreamRecordRow = "IndexChunk{ID:NewChunk(c.b).ID(),Size:uint64(len(c.b)),Start:c.start}" ∧
+    Gen.chunkStreamRecordOncePerJob = true ∧
+    Gen.chunkStreamResultsAssign = "results[key]=row" ∧
+    Gen.chunkStreamStoreArg = "NewChunk(c.b)" ∧ Gen.chunkStreamStoreErrReturned = true ∧
+    Gen.chunkStreamNext = "start,b,err:=c.Next()" ∧ Gen.chunkStreamJob = "chunkJob{b:b,num:num,start:start}" ∧
+    Gen.chunkStreamNumbering = true ∧
+    Gen.chunkStreamAssemble = ["make([]IndexChunk,len(results))", "i:=0;i<len(results);chunks[i]=results[i]", "chunks"] := by
+  decide
+
 /-! ### non-vacuity -/
+
+/-- a complete run of the stream machine with two workers finishing out of order -/
+example : (CStream.run (fun b => [b.length.toUInt8]) (CStream.St.init [(0, [1, 2]), (2, [3]), (3, [4, 5, 6])] 2)
+    [.feedSend 1, .feedSend 0, .record 0, .storeOk 0, .feedSend 0, .record 0, .record 1, .storeOk 1, .storeOk 0,
+     .feedEnd, .workExit 0, .workExit 1, .wait]).result =
+    some (.ok [⟨0, 2, [2]⟩, ⟨2, 1, [1]⟩, ⟨3, 3, [3]⟩]) := by decide
 
 example : (⟨48, 128, 70⟩ : ChunkParams).valid 64 = true := by decide
 example : winSize ≤ (⟨48, 128, 70⟩ : ChunkParams).min ∧ (48 : Nat) < 128 := by decide
